@@ -396,3 +396,7 @@ package zygo
 //@ requires extra >= 0
 //@ C01 nopanic
 //@ C01 ensures buffered: err == nil ==> tok.typ != TokenEnd && len(parser.lexer.tokens) > extra
+
+// Builtins (Go functions callable from scripts) run under a deferred recover():
+// their panics become script errors, so they are not part of the panic sweep.
+//@ guard C01 recover SexpFunction.userfun
